@@ -235,7 +235,7 @@ def cutoffs_and_nearest(mt, model, trace, counters=None):
 
 
 # ------------------------------------------------------------------------------------------- C02
-def rescore_path(mt, family, model, counters=None):
+def rescore_path(mt, family, model, counters=None, stamps=None):
     """C02: reported numbers along the best path equal the documented model's numbers."""
     out = []
     lb = mt.lattice_best or []
@@ -280,16 +280,22 @@ def rescore_path(mt, family, model, counters=None):
             # better candidate in a later round (widen / extend) and then postponed by the width pruning of that round, so
             # it was never expanded again and x still carries the predecessor's old probability.
             mech = None
-            if bad[0] == "logprob" and prev_entry is not None and len(prev_entry.prev_other) > 0 \
-                    and not prev_entry.stop and prev_entry.delayed > mt.expand_now and mt.max_lattice_width:
+            if bad[0] == "logprob" and prev_entry is not None and stamps is not None and mt.max_lattice_width and mt.expand_now >= 1:
+                wx, wp = stamps.w.get(id(x)), stamps.w.get(id(prev_entry))
+                xp = stamps.x.get(id(prev_entry), 0)
                 step_ok = True
-                if family == "distance":
-                    step_ok = close(x.lpt, cur["lpt"], rel) and close(x.lpe, cur["lpe"], rel)
-                if step_ok and bad[1] < bad[2]:
-                    mech = "stale-child-of-entry-replaced-then-postponed-by-pruning"
+                if family == "distance" and not latlon:
+                    step_ok = close(x.lpe, cur["lpe"], rel)
+                if wx is not None and wp is not None and wx < wp and step_ok and not prev_entry.stop \
+                        and (xp > wp or prev_entry.delayed > mt.expand_now):
+                    # the predecessor was replaced in place AFTER this state was written, and it was either expanded again
+                    # (the regenerated candidate for this state was not better, or is forbidden by the no-revisit rule) or
+                    # postponed by the width pruning of that round.  A predecessor that was replaced and then neither
+                    # expanded nor postponed does NOT match (that is the bug repaired by ba170ae).
+                    mech = "stale-child-of-entry-replaced-in-a-later-round"
             if mech:
-                out.append((f"{bad[0]}:{mech}", f"state {x.key}: reported logprob={bad[1]!r} but its predecessor {prev_entry.key} now has "
-                            f"{prev_entry.logprob!r} (replaced {len(prev_entry.prev_other)}x, delayed={prev_entry.delayed} > round {mt.expand_now}); "
+                out.append((f"{bad[0]}:{mech}", f"state {x.key}: reported logprob={bad[1]!r}; its predecessor {prev_entry.key} (now "
+                            f"{prev_entry.logprob!r}, delayed={prev_entry.delayed}, round {mt.expand_now}) was replaced after this state was written; "
                             f"the model assigns {bad[2]!r} to this path prefix (path {[y.key for y in lb]})"))
             else:
                 out.append((f"{bad[0]}:{kind}", f"state {x.key}: reported {bad[0]}={bad[1]!r}, the model assigns {bad[2]!r} to this path prefix "
